@@ -501,6 +501,9 @@ def r5(ctx, cfg):
         bad = []
         for s in seqs:
             if s[-2:] != (("ret", "Ok(r)"), "<return>"):
+                if ("ret", "propagate-reply-error") not in s:
+                    # neither the sub-message's response nor the reply's error: nothing this rule can read the data from
+                    bad.append("%s (expected the sub-message's response, or the propagated error of reply)" % submsg.fmt_seq(s))
                 continue  # propagated reply error: no response at all
             sets = [e for e in s if e[0] == "set" and e[1] == "r.data"]
             exts = [e for e in s if e[0] == "extend-events"]
